@@ -100,7 +100,9 @@ def plan_edits(rng, text, lang, level=0.25, protect=0):
             pos = [m.start() for m in re.finditer(" ", body)]
             add("comment", "inline", line=i, pos=rng.choice(pos), text=" /* " + cm() + " */")
         if body and rng.random() < level * 0.8:
-            add("comment", "trailing", line=i, text=" " * rng.randrange(0, 3) + line_comment())
+            lc = line_comment()
+            # `完毕注: c` would be ONE identifier: the Chinese comment marker needs a blank before it
+            add("comment", "trailing", line=i, text=" " * rng.randrange(1 if lc.startswith("注") else 0, 3) + lc)
         k = rng.random()
         if k < level * 0.3:
             add("layout", "indent", line=i, indent="    " * len(ind))
